@@ -62,6 +62,27 @@ def decodeMsg {Sym : Type} (c : Cfg) : Decoder → List (MStep Sym) →
       | .error err => .error err
       | .ok (ss, d'') => .ok (s :: ss, d'')
 
+/-- the message is short enough for the `usize` counters:
+    `Word::BITS · (n + 2) < 2^usize::BITS` (`n` symbols need at most `n + 2` words) -/
+def MsgFits (c : Cfg) (n : Nat) : Prop := c.W * (n + 2) < 2^usizeBits
+
+instance (c : Cfg) (n : Nat) : Decidable (MsgFits c n) := by
+  unfold MsgFits; exact inferInstance
+
+theorem fits_empty {c : Cfg} {n : Nat} (h : MsgFits c n) : Fits c (Encoder.empty c) n := by
+  unfold Fits MsgFits at *
+  simpa [Encoder.empty, Situation.held] using h
+
+theorem fits_withBackend {c : Cfg} {n : Nat} {ws : List Nat} (h : MsgFits c (ws.length + n)) :
+    Fits c (Encoder.withBackend c ws) n := by
+  unfold Fits MsgFits at *
+  simpa [Encoder.withBackend, Situation.held, Nat.add_assoc] using h
+
+theorem MsgFits.mono {c : Cfg} {n k : Nat} (h : MsgFits c n) (hk : k ≤ n) : MsgFits c k := by
+  unfold MsgFits at *
+  have : c.W * (k + 2) ≤ c.W * (n + 2) := Nat.mul_le_mul_left _ (by omega)
+  omega
+
 theorem inv_cfgAt {c : Cfg} {e : Encoder} (B P : Nat) : Inv (cfgAt c B P) e ↔ Inv c e := Iff.rfl
 
 theorem absE_cfgAt {c : Cfg} {e : Encoder} (B P : Nat) : absE (cfgAt c B P) e = absE c e := rfl
@@ -107,18 +128,21 @@ theorem encPure_range_ne_max {c : Cfg} (hc : RValid c) {e : Encoder} (hI : Inv c
     omega
 
 /-- **encoding a message**: never faults, keeps the invariant, refines the reference run -/
-theorem encodeMsg_ok {Sym : Type} {c : Cfg} : ∀ (msg : List (MStep Sym)) (e : Encoder),
-    Inv c e → (∀ x ∈ msg, x.Valid c) →
-    ∃ e', encodeMsg c e msg = .ok e' ∧ Inv c e' ∧
+theorem encodeMsg_ok' {Sym : Type} {c : Cfg} (k : Nat) : ∀ (msg : List (MStep Sym)) (e : Encoder),
+    Inv c e → Fits c e (msg.length + k) → (∀ x ∈ msg, x.Valid c) →
+    ∃ e', encodeMsg c e msg = .ok e' ∧ Inv c e' ∧ Fits c e' k ∧
       absE c e' = run c.W c.S (absE c e) (msg.map MStep.spec) ∧
       (msg ≠ [] → e'.range ≠ maxState c) := by
   intro msg
   induction msg with
   | nil =>
-    intro e hI _
-    exact ⟨e, rfl, hI, rfl, fun h => absurd rfl h⟩
+    intro e hI hf _
+    exact ⟨e, rfl, hI, by simpa using hf, rfl, fun h => absurd rfl h⟩
   | cons x xs ih =>
-    intro e hI hv
+    intro e hI hf hv
+    have hf' : Fits (cfgAt c x.B x.P) e (xs.length + k + 1) := by
+      have : (x :: xs).length + k = xs.length + k + 1 := by simp only [List.length_cons]; omega
+      rw [this] at hf; exact hf
     have hx : x.Valid c := hv x (by simp)
     obtain ⟨hp, hcp⟩ := hx.cp_ok
     have hc := hx.1
@@ -127,14 +151,16 @@ theorem encodeMsg_ok {Sym : Type} {c : Cfg} : ∀ (msg : List (MStep Sym)) (e : 
         = .ok (encPure (cfgAt c x.B x.P) e x.cp.1 x.cp.2) := by
       unfold encode
       rw [hx.enc_eq]
-      exact encodeCP_eq_pure hc hI' hp hcp
+      exact encodeCP_eq_pure hc hI' (hf'.mono (by omega)) hp hcp
     have hI2 : Inv c (encPure (cfgAt c x.B x.P) e x.cp.1 x.cp.2) :=
       encPure_inv hc hI' hp hcp
+    have hf2 : Fits c (encPure (cfgAt c x.B x.P) e x.cp.1 x.cp.2) (xs.length + k) :=
+      encPure_fits (c := cfgAt c x.B x.P) hc hI' hp hcp hf'
     have habs : absE c (encPure (cfgAt c x.B x.P) e x.cp.1 x.cp.2)
         = step c.W c.S (absE c e) x.P x.cp.1 x.cp.2 := encPure_abs hc hI' hp hcp
     have hne := encPure_range_ne_max hc hI' hp hcp
-    obtain ⟨e', he', hI3, habs3, hne3⟩ := ih _ hI2 (fun y hy => hv y (by simp [hy]))
-    refine ⟨e', ?_, hI3, ?_, ?_⟩
+    obtain ⟨e', he', hI3, hf3, habs3, hne3⟩ := ih _ hI2 hf2 (fun y hy => hv y (by simp [hy]))
+    refine ⟨e', ?_, hI3, hf3, ?_, ?_⟩
     · simp only [encodeMsg, henc]; exact he'
     · rw [habs3, habs]; rfl
     · intro _
@@ -145,14 +171,22 @@ theorem encodeMsg_ok {Sym : Type} {c : Cfg} : ∀ (msg : List (MStep Sym)) (e : 
         exact hne
       | cons y ys => exact hne3 (by simp)
 
+theorem encodeMsg_ok {Sym : Type} {c : Cfg} (msg : List (MStep Sym)) (e : Encoder)
+    (hI : Inv c e) (hf : Fits c e msg.length) (hv : ∀ x ∈ msg, x.Valid c) :
+    ∃ e', encodeMsg c e msg = .ok e' ∧ Inv c e' ∧ Fits c e' 0 ∧
+      absE c e' = run c.W c.S (absE c e) (msg.map MStep.spec) ∧
+      (msg ≠ [] → e'.range ≠ maxState c) :=
+  encodeMsg_ok' 0 msg e hI hf hv
+
 /-- **C06**: the words returned by `into_compressed` are exactly the words the reference coder
     prescribes for the message. -/
 theorem words_eq_spec {Sym : Type} {c : Cfg} (hc : RValid c) (msg : List (MStep Sym))
-    (hv : ∀ x ∈ msg, x.Valid c) :
-    ∃ e, encodeMsg c (Encoder.empty c) msg = .ok e ∧ Inv c e ∧
+    (hn : MsgFits c msg.length) (hv : ∀ x ∈ msg, x.Valid c) :
+    ∃ e, encodeMsg c (Encoder.empty c) msg = .ok e ∧ Inv c e ∧ Fits c e 0 ∧
       intoCompressed c e = .ok (RangeSpec.words c.W c.S (msg.map MStep.spec)) := by
-  obtain ⟨e, he, hI, habs, hne⟩ := encodeMsg_ok msg (Encoder.empty c) (inv_empty hc) hv
-  refine ⟨e, he, hI, ?_⟩
+  obtain ⟨e, he, hI, hf, habs, hne⟩ :=
+    encodeMsg_ok msg (Encoder.empty c) (inv_empty hc) (fits_empty hn) hv
+  refine ⟨e, he, hI, hf, ?_⟩
   rw [intoCompressed_eq hc hI]
   cases msg with
   | nil =>
